@@ -107,7 +107,7 @@ pub fn compare(text: &str) -> Cmp {
             Cmp::Bad {
                 kind,
                 what: format!("input must be refused ({}) but parse returned Ok{}", why, prefix_note),
-                detail: J::obj(vec![("input", J::s(text)), ("returned_tree", J::s(format!("{:?}", tree))), ("returned_options", J::s(options_text(&opts)))]),
+                detail: J::obj(vec![("input", J::s(text)), ("returned_tree", J::s(show_tree(&tree))), ("returned_options", J::s(options_text(&opts)))]),
             }
         }
         (Spec::Ok(want), Err(msg)) => {
@@ -117,7 +117,7 @@ pub fn compare(text: &str) -> Cmp {
             Cmp::Bad {
                 kind: "rejects-member".into(),
                 what: format!("input is in the language but parse returned Err: {}", msg),
-                detail: J::obj(vec![("input", J::s(text)), ("expected_tree", J::s(format!("{:?}", want.tree)))]),
+                detail: J::obj(vec![("input", J::s(text)), ("expected_tree", J::s(show_tree(&want.tree)))]),
             }
         }
         (Spec::Ok(want), Ok((opts, tree))) => {
@@ -127,8 +127,8 @@ pub fn compare(text: &str) -> Cmp {
             if tree != want.tree && !same_modulo_true {
                 return Cmp::Bad {
                     kind: "wrong-tree".into(),
-                    what: format!("tree differs from the reference: expected {:?}, got {:?}", want.tree, tree),
-                    detail: J::obj(vec![("input", J::s(text)), ("expected_tree", J::s(format!("{:?}", want.tree))), ("returned_tree", J::s(format!("{:?}", tree)))]),
+                    what: format!("tree differs from the reference: expected {}, got {}", show_tree(&want.tree), show_tree(&tree)),
+                    detail: J::obj(vec![("input", J::s(text)), ("expected_tree", J::s(show_tree(&want.tree))), ("returned_tree", J::s(show_tree(&tree)))]),
                 };
             }
             if opts.depth != want.depth || opts.threads != want.threads {
@@ -156,5 +156,74 @@ pub fn compare(text: &str) -> Cmp {
             }
             Cmp::AgreeOk(want, opts, tree)
         }
+    }
+}
+
+/// Debug rendering of a tree for messages. The library's `Debug` is pretty-printed with nested indentation,
+/// i.e. quadratic in the depth: a chain of thousands of operands is summarised instead.
+pub fn show_tree(e: &lipe_find_parser::ast::Expression) -> String {
+    fn size(e: &lipe_find_parser::ast::Expression, budget: &mut i64) {
+        use lipe_find_parser::ast::{Expression, Operator};
+        *budget -= 1;
+        if *budget < 0 {
+            return;
+        }
+        if let Expression::Operator(op) = e {
+            match op.as_ref() {
+                Operator::Precedence(x) | Operator::Not(x) => size(x, budget),
+                Operator::And(a, b) | Operator::Or(a, b) | Operator::List(a, b) => {
+                    // iterate down the left spine, recurse into the right operand
+                    size(b, budget);
+                    size(a, budget);
+                }
+            }
+        }
+    }
+    let mut budget = 400i64;
+    size(e, &mut budget);
+    if budget >= 0 {
+        format!("{:?}", e)
+    } else {
+        fn spine(e: &lipe_find_parser::ast::Expression) -> (usize, String) {
+            use lipe_find_parser::ast::{Expression, Operator};
+            let mut n = 0;
+            let mut cur = e;
+            let mut ops = String::new();
+            loop {
+                match cur {
+                    Expression::Operator(op) => match op.as_ref() {
+                        Operator::And(a, _) => {
+                            if ops.len() < 40 {
+                                ops.push('A');
+                            }
+                            cur = a;
+                        }
+                        Operator::Or(a, _) => {
+                            if ops.len() < 40 {
+                                ops.push('O');
+                            }
+                            cur = a;
+                        }
+                        Operator::List(a, _) => {
+                            if ops.len() < 40 {
+                                ops.push('L');
+                            }
+                            cur = a;
+                        }
+                        Operator::Not(a) | Operator::Precedence(a) => {
+                            if ops.len() < 40 {
+                                ops.push('!');
+                            }
+                            cur = a;
+                        }
+                    },
+                    _ => break,
+                }
+                n += 1;
+            }
+            (n, ops)
+        }
+        let (n, ops) = spine(e);
+        format!("<tree of more than 400 nodes; left spine of {} operators starting {}...>", n, ops)
     }
 }
